@@ -85,10 +85,14 @@ structure StructuredDecomposition where
   pieceLocations : List (List Nat)
 deriving Repr, DecidableEq
 
-def StructuredDecomposition.isMeshed (sd : StructuredDecomposition) (dir : Nat) : Bool :=
-  match (sd.cellsPerAxis.getD dir []).head? with
-  | some n => 0 < n
+/-- `sizes[0] > 0` (`false` for an empty list, where the code would raise) -/
+def headPositive (l : List Int) : Bool :=
+  match l.head? with
+  | some n => decide (0 < n)
   | none => false
+
+def StructuredDecomposition.isMeshed (sd : StructuredDecomposition) (dir : Nat) : Bool :=
+  headPositive (sd.cellsPerAxis.getD dir [])
 
 def StructuredDecomposition.meshedDimensions (sd : StructuredDecomposition) : List Nat :=
   (List.range 3).filter sd.isMeshed
@@ -116,9 +120,7 @@ def structuredDecomposition (extents : List (List Int)) : StructuredDecompositio
   let ue := (List.range 3).map fun dir => uniqueSorted (ends dir)
   let sizes := (List.range 3).map fun dir =>
     List.zipWith (fun e b => e - b) (ue.getD dir []) (ub.getD dir [])
-  let has := fun (dir : Nat) => match (sizes.getD dir []).head? with
-    | some n => decide (0 < n)
-    | none => false
+  let has := fun (dir : Nat) => headPositive (sizes.getD dir [])
   let locs := extents.map fun e =>
     ((List.range 3).filter has).map fun dir => (ub.getD dir []).idxOf (e.getD (2 * dir) 0)
   ⟨sizes, locs⟩
@@ -196,6 +198,61 @@ def pvtrOrdinates (sd : StructuredDecomposition) (pieceOrds : List (List (List I
 def axisPieces (W : List Int) : Nat → List Nat → List (List Int)
   | _, [] => []
   | off, n :: r => (W.drop off).take (n + 1) :: axisPieces W (off + n) r
+
+/-! ### `_make_structured_mesh` of `PVTIReader` (image grids) and `PVTSReader` (structured grids) -/
+
+/-- an image grid as `ImageMesh` holds it: cells per direction, origin, spacing (unit counts), basis rows -/
+structure ImageGrid where
+  extents : List Int
+  origin : List Int
+  spacing : List Int
+  basis : List (List Int)
+deriving Repr, DecidableEq
+
+/-- exact product of two unit counts, in units (`U` fractional bits; floor if not a whole number of units) -/
+def mulUnits (U : Nat) (a b : Int) : Int := (a * b) / (2 : Int) ^ U
+
+def dotUnits (U : Nat) : List Int → List Int → Int
+  | a :: as, b :: bs => mulUnits U a b + dotUnits U as bs
+  | _, _ => 0
+
+/-- `origin + basis.dot(spacing * lower)` for integer `lower`, evaluated exactly (the same formula as
+    `Fc.C07.imagePointZ`; the floating evaluation agrees whenever `imageShiftExact` holds and the
+    result is representable) -/
+def imageShift (U : Nat) (origin : List Int) (basis : List (List Int)) (spacing lower : List Int) : List Int :=
+  let v := List.zipWith (· * ·) spacing lower
+  List.zipWith (fun o row => o + dotUnits U row v) origin basis
+
+/-- every product `B_rc · (spacing_c · lower_c)` is a whole number of units -/
+def imageShiftExact (U : Nat) (basis : List (List Int)) (spacing lower : List Int) : Bool :=
+  let v := List.zipWith (· * ·) spacing lower
+  basis.all fun row => (List.zipWith (fun a b => (a * b) % (2 : Int) ^ U == 0) row v).all id
+
+/-- `VTIReader._make_mesh` (since fix a3961d2) for a file with `Extent` = `extent` and the attributes
+    `Origin`, `Spacing`, `Direction`: cells per direction from the extent, the origin shifted to the
+    point with the lowest structured index of the file -/
+def vtiMesh (U : Nat) (extent origin spacing : List Int) (basis : List (List Int)) : ImageGrid :=
+  ⟨(List.range 3).map fun i => extent.getD (2 * i + 1) 0 - extent.getD (2 * i) 0,
+   imageShift U origin basis spacing ((List.range 3).map fun i => extent.getD (2 * i) 0), spacing, basis⟩
+
+/-- `min(e[2 * i] for e in piece_extents)` (`none` = `min()` of an empty sequence raises) -/
+def minLower (extents : List (List Int)) (i : Nat) : Option Int :=
+  match extents.map fun e => e.getD (2 * i) 0 with
+  | [] => none
+  | x :: r => some (r.foldl min x)
+
+/-- `PVTIReader._make_structured_mesh` (since fix 110e1da): extents from the decomposition; origin,
+    spacing and basis of the FIRST listed piece, the origin shifted by the lowest structured index of
+    all pieces -/
+def pvtiMesh (U : Nat) (sd : StructuredDecomposition) (extents : List (List Int))
+    (origin spacing : List Int) (basis : List (List Int)) : Option ImageGrid := do
+  let lower ← (List.range 3).mapM (minLower extents)
+  pure ⟨sd.mergedExtents, imageShift U origin basis spacing lower, spacing, basis⟩
+
+/-- `PVTSReader._make_structured_mesh`: the pieces' points are merged like a point field
+    (`merger.merge_point_fields(lambda loc: piece_points[decomposition.domain_id(loc)])`) -/
+def pvtsPoints (extents : List (List Int)) (piecePoints : List (List (List Int))) : List (List Int) :=
+  pvtkMergeField true extents piecePoints [0, 0, 0]
 
 /-! ### what an axis-aligned decomposition looks like (used by spec and generators) -/
 
